@@ -21,12 +21,13 @@ def _run(args):
     seed, kind, n = args
     rng = random.Random(seed)
     cfg = cp.random_cfg(rng)
+    if kind == "free":
+        tr = cp.run_history(cfg, cp.random_free_history(rng, n), tokens=False)
+        tr["qed"] = False
+        return tr
     if kind == "tok":
         tr = cp.run_history(cfg, cp.random_token_history(rng, n), tokens=True)
-        # with running QED a segment across the tau mass is computed in two pieces (two compute()
-        # calls): outside the step model of Couplings.tla, so only property clauses are judged
-        if cfg["qed"] > 0:
-            tr["tokens"] = False
+        tr["qed"] = cfg["qed"] > 0   # with QED a segment across the tau mass is solved in two pieces
         return tr
     return cp.run_history(cfg, cp.random_free_history(rng, n), tokens=False)
 
@@ -51,9 +52,17 @@ def run(chk):
     bad = {}
     conf = 0
     B = 1000
-    for k in range(0, len(traces), B):
-        part = traces[k:k + B]
-        res = chk.tlc("CouplingsTraceMC", "CouplingsTraceMC.cfg", trace=part, workers=1, label="histories on real objects")
+    order = [i for i, t in enumerate(traces) if not t["qed"]] + [i for i, t in enumerate(traces) if t["qed"]]
+    nq = sum(1 for t in traces if not t["qed"])
+    groups = [(order[:nq], "CouplingsTraceMC.cfg"), (order[nq:], "CouplingsTraceMC_qed.cfg")]
+    batches = []
+    for idxs, cfgname in groups:
+        for k in range(0, len(idxs), B):
+            batches.append((idxs[k:k + B], cfgname))
+    for idxs, cfgname in batches:
+        part = [traces[i] for i in idxs]
+        k = None
+        res = chk.tlc("CouplingsTraceMC", cfgname, trace=part, workers=1, label="histories on real objects (" + cfgname + ")")
         if res.violated:
             raise MachineryError(f"CouplingsTrace stopped: {res.out[-2000:]}")
         done = set()
@@ -61,10 +70,10 @@ def run(chk):
             if t[0] == "DONE":
                 done.add(t[1])
             elif t[0] == "BAD":
-                bad.setdefault(t[3], (k + t[1] - 1, t[2]))
+                bad.setdefault(t[3], (idxs[t[1] - 1], t[2]))
             elif t[0] == "CONF":
                 conf += 1
-                chk.diag(f"conformance: trace {k + t[1] - 1} step {t[2]}: {t[3]}")
+                chk.diag(f"conformance: trace {idxs[t[1] - 1]} step {t[2]}: {t[3]}")
         if done != set(range(1, len(part) + 1)):
             raise MachineryError("traces not consumed")
         chk.cov["traces_validated_against_impl"] += len(part)
